@@ -459,6 +459,7 @@ def run_check(check, tier, seed):
         'held_concrete': counts.get('held-concrete', 0),
         'violation_concrete': counts.get('violation-concrete', 0),
         'solver_ms_total': solver_ms,
+        'parse_cross_checked': sum(1 for r in results if r.get('parse_cross_checked')),
         'solver_queries': sum(int(r.get('queries') or (1 if r.get('verdict') in ('unsat', 'sat', 'unknown') else 0)) for r in results),
         'functions_encoded': desc['functions'],
         'bounds': desc['bounds'],
